@@ -389,7 +389,19 @@ pub fn eval(case: &J) -> Outcome {
             if !ok { out.fail(&format!("C07/sqlx/cell-outside-type/{cls}"), format!("{sql}: column `{}` is declared {} but execution produced {} (row {:?})", f.name(), f.data_type(), row[ci], row));
                 // a *bare column* of the inputs whose returned value lies outside its type under a WHERE or an ON clause: the narrowing dropped a row
                 // that satisfies the predicate (C10); expression columns are judged by C06 / C07 only
-                let bare = match &rel { Relation::Map(m) => m.projection().get(i).map_or(false, |e| matches!(e, qrlew::expr::Expr::Column(_))) && m.filter().is_none(), _ => false };
+                // follow the column down through renaming Maps, grouping keys and joins to a column of a base table
+                fn base_column(r: &Relation, i: usize) -> bool {
+                    use qrlew::expr::Expr;
+                    let by_name = |inp: &Relation, c: &qrlew::expr::Column| -> Option<usize> { let n = c.last().ok()?; inp.schema().iter().position(|f| f.name() == n) };
+                    match r {
+                        Relation::Table(_) => true,
+                        Relation::Map(m) => match m.projection().get(i) { Some(Expr::Column(c)) => by_name(m.input(), c).map_or(false, |j| base_column(m.input(), j)), _ => false },
+                        Relation::Reduce(x) => match x.aggregate().get(i) { Some(a) if matches!(a.aggregate(), qrlew::expr::aggregate::Aggregate::First) => by_name(x.input(), a.column()).map_or(false, |j| base_column(x.input(), j)), _ => false },
+                        Relation::Join(j) => { let nl = j.left().schema().len(); if i < nl { base_column(j.left(), i) } else { base_column(j.right(), i - nl) } }
+                        _ => false,
+                    }
+                }
+                let bare = base_column(&rel, i);
                 if bare && (sql.contains(" WHERE ") || sql.contains(" ON ")) && row[ci] != Cell::Null { out.fail(&format!("C10/sqlx/returned-row-outside-narrowed-type/{cls}"), format!("{sql}: column `{}` is narrowed to {} but the query returns {} (row {:?})", f.name(), f.data_type(), row[ci], row)); }
                 break; }
         }
